@@ -364,9 +364,10 @@ pub fn stderr_gist(s: &str) -> String {
     g.chars().take(240).collect::<String>().replace(' ', "_")
 }
 
-/// finding class F39 (dictionary-file form): the root's first child is a leaf, i.e. the file holds
-/// an entry under the empty syllable key (`TrieBuilder` itself writes such files when asked to);
-/// `lookup(&[])` is then non-empty and every conversion aborts.
+/// STATISTIC (the predicate of the former finding class F39, dictionary-file form; repaired at the engine by
+/// 870202b, no oracle class any more): the root's first child is a leaf, i.e. the file holds an entry under the
+/// empty syllable key (`TrieBuilder` itself writes such files when asked to); `lookup(&[])` is then non-empty
+/// and every conversion used to abort.
 pub fn empty_key_entry(recs: &[IRec]) -> bool {
     match recs.first() {
         Some(r) if in_range(r, recs.len()) => recs[r.a as usize].s == 0,
